@@ -3,30 +3,35 @@
 (* C24 - Parquet scans with pruning and pushdown return exactly the         *)
 (* matching rows.                                                           *)
 (*                                                                         *)
-(* A file is a sequence of rows <<a, b, s>> (a, b nullable integers, s a    *)
-(* nullable string from an ordered pool); row i has file row index i-1.     *)
-(* The writer cuts it into row groups of RG rows and data pages of PG rows. *)
-(* The meaning of a scan with predicate p is Filter(p, rows) - with the row *)
-(* index attached - whatever the reader prunes.  The reader's access plan   *)
-(* is modelled as successive selections of containers (row groups, pages,   *)
-(* rows); a selection is SOUND iff it keeps every container holding a       *)
-(* matching row.  Theorem (checked per case): filtering any sound chain of  *)
-(* selections yields Filter(p, rows); in particular the minimal sound       *)
-(* selections NeedRG / NeedPages do, and dropping any container of NeedRG   *)
-(* loses a matching row.                                                    *)
+(* A table is 1 or 2 files; a file is a sequence of rows <<a, b, s, p>>     *)
+(* (a, b, p nullable integers, s a nullable string from an ordered pool;    *)
+(* physically: columns a, b, s, a struct st{p, q = s} and a list l = [a,b]);*)
+(* row i of a file has file row index i-1.  The writer cuts each file into  *)
+(* row groups of RG rows and data pages of PG rows.  The second file may    *)
+(* hold values of column a shifted by 10 (disjoint statistics: file-level   *)
+(* pruning).  The meaning of a scan with predicate p is Filter(p, rows) of  *)
+(* every file - with the row index attached - whatever the reader prunes.   *)
+(* The reader's access plan is modelled as successive selections of         *)
+(* containers (files, row groups, pages, rows); a selection is SOUND iff it *)
+(* keeps every container holding a matching row.  Theorem (checked per      *)
+(* case): filtering any sound chain of selections yields Filter(p, rows);   *)
+(* the minimal sound selections NeedRG / NeedPages do, and dropping any     *)
+(* container of NeedRG loses a matching row.                                *)
 (***************************************************************************)
 EXTENDS Expr, TLC, Json, Randomization
 
 CONSTANTS N,          \* rows per file
           AV, SVs,    \* integer values / string pool indices used in the data
-          NData, NPred
+          NCases
 VARIABLES data, pred, lay
 
+Shift == 10
 Vals(c) == IF c = 3 THEN {S(v) : v \in SVs} \cup {Null} ELSE {I(v) : v \in AV} \cup {Null}
 Arrangements == {"random", "sorted", "clustered", "nulls"}
-\* one random data set (RandomElement is re-evaluated for every initial state)
+\* one random data set (RandomElement is re-evaluated for every call of an operator with arguments)
 RandomData(k) == [a |-> [i \in 1..N |-> RandomElement(Vals(1))], b |-> [i \in 1..N |-> RandomElement(Vals(2))],
-               s |-> [i \in 1..N |-> RandomElement(Vals(3))], arrange |-> RandomElement(Arrangements)]
+                  s |-> [i \in 1..N |-> RandomElement(Vals(3))], p |-> [i \in 1..N |-> RandomElement(Vals(4))],
+                  arrange |-> RandomElement(Arrangements)]
 
 \* value order used for the "sorted" arrangement: NULLs last, integers ascending
 Key(v) == IF IsNull(v) THEN 1000000 ELSE v.v
@@ -36,40 +41,58 @@ InsertSorted(r, sq) == IF sq = <<>> THEN <<r>>
                        ELSE <<Head(sq)>> \o InsertSorted(r, Tail(sq))
 SortByA(sq) == IF sq = <<>> THEN <<>> ELSE InsertSorted(Head(sq), SortByA(Tail(sq)))
 
-RawRows(d) == [i \in 1..N |-> <<d.a[i], d.b[i], d.s[i]>>]
+RawRows(d) == [i \in 1..N |-> <<d.a[i], d.b[i], d.s[i], d.p[i]>>]
 Rows(d) ==
   CASE d.arrange = "random" -> RawRows(d)
     [] d.arrange = "sorted" -> SortByA(RawRows(d))
-    [] d.arrange = "clustered" -> [i \in 1..N |-> <<I(((i - 1) \div 3) + 1), d.b[i], d.s[i]>>]   \* runs of equal a
-    [] d.arrange = "nulls" -> [i \in 1..N |-> IF i % 3 = 0 THEN RawRows(d)[i] ELSE <<Null, d.b[i], Null>>]
+    [] d.arrange = "clustered" -> [i \in 1..N |-> <<I(((i - 1) \div 3) + 1), d.b[i], d.s[i], d.p[i]>>]   \* runs of equal a
+    [] d.arrange = "nulls" -> [i \in 1..N |-> IF i % 3 = 0 THEN RawRows(d)[i] ELSE <<Null, d.b[i], Null, d.p[i]>>]
+ShiftRows(rows, sh) == [i \in 1..Len(rows) |-> <<IF IsNull(rows[i][1]) THEN Null ELSE I(rows[i][1].v + sh),
+                                                  rows[i][2], rows[i][3], rows[i][4]>>]
 
-Layouts == [rg : {2, 3, 5, N}, pg : {1, 2, 3}, stats : {"none", "chunk", "page"}, bloom : BOOLEAN, dict : BOOLEAN]
+Layouts == [rg : {2, 3, 5, N}, pg : {1, 2, 3}, stats : {"none", "chunk", "page"}, bloom : BOOLEAN, dict : BOOLEAN,
+            two : BOOLEAN, shift : {0, Shift}]
+Files(d, l) == IF l.two THEN <<Rows(d[1]), ShiftRows(Rows(d[2]), l.shift)>> ELSE <<Rows(d[1])>>
 
 \* ------------------------------------------------------------- predicates
-ColVals(c) == IF c = 3 THEN {S(v) : v \in SVs} ELSE {I(v) : v \in AV}
-Atoms ==
-  UNION {{Bin(op, Col(c), Lit(v)) : op \in {"=", "<>", "<", "<=", ">", ">="}, v \in ColVals(c)} : c \in 1..3}
-  \cup UNION {{InList(Col(c), <<Lit(v), Lit(w)>>, ng) : v \in ColVals(c), w \in ColVals(c), ng \in BOOLEAN} : c \in 1..3}
-  \cup {Un(f, Col(c)) : f \in {"isnull", "isnotnull"}, c \in 1..3}
-  \cup {Bin(op, Col(1), Col(2)) : op \in {"=", "<", ">="}}
-Preds ==
-  Atoms
-  \cup {Bin("and", x, y) : x \in Atoms, y \in Atoms}
-  \cup {Bin("or", x, y) : x \in Atoms, y \in Atoms}
-  \cup {Un("not", x) : x \in Atoms}
-  \cup {Bin("and", x, Un("not", y)) : x \in Atoms, y \in Atoms}
+\* columns: 1 a, 2 b, 3 s, 4 st.p
+ColVals(c) == IF c = 3 THEN {S(v) : v \in SVs}
+              ELSE IF c = 1 THEN {I(v) : v \in AV} \cup {I(v + Shift) : v \in AV} ELSE {I(v) : v \in AV}
+RandLit(c) == Lit(RandomElement(ColVals(c)))
+AtomOn(c, kind) ==
+  CASE kind = "cmp"  -> Bin(RandomElement({"=", "=", "<>", "<", "<=", ">", ">="}), Col(c), RandLit(c))
+    [] kind = "in"   -> InList(Col(c), <<RandLit(c), RandLit(c)>>, RandomElement(BOOLEAN))
+    [] kind = "null" -> Un(RandomElement({"isnull", "isnotnull"}), Col(c))
+    [] kind = "colcol" -> Bin(RandomElement({"=", "<", ">="}), Col(1), Col(2))
+RandAtom(k) == AtomOn(RandomElement({1, 1, 2, 3, 4}), RandomElement({"cmp", "in", "null", "colcol"}))
+\* biased towards comparisons on column a (statistics / page index / limit pruning paths)
+RandAtomA(k) == AtomOn(1, "cmp")
+Shape(sh, x, y, z) ==
+  CASE sh = "atom" -> x
+    [] sh = "and" -> Bin("and", x, y)
+    [] sh = "or" -> Bin("or", x, y)
+    [] sh = "not" -> Un("not", x)
+    [] sh = "andnot" -> Bin("and", x, Un("not", y))
+    [] sh = "and3" -> Bin("and", Bin("and", x, y), z)
+RandomPred(k) ==
+  Shape(RandomElement({"atom", "and", "or", "not", "andnot", "and3"}),
+        IF RandomElement(1..3) = 1 THEN RandAtomA(k) ELSE RandAtom(k), RandAtom(k + 1), RandAtom(k + 2))
 
 \* ---------------------------------------------------------------- meaning
 Match(p, rows) == {i \in 1..Len(rows) : Holds(Eval(p, rows[i]))}
-Expect(p, rows) == [k \in 1..Cardinality(Match(p, rows)) |->
+ExpectFile(p, rows) == [k \in 1..Cardinality(Match(p, rows)) |->
                       LET i == CHOOSE j \in Match(p, rows) : Cardinality({m \in Match(p, rows) : m < j}) = k - 1
                       IN <<I(i - 1)>> \o rows[i]]
+RECURSIVE ExpectFrom(_, _, _)
+ExpectFrom(p, fs, i) == IF i > Len(fs) THEN <<>> ELSE ExpectFile(p, fs[i]) \o ExpectFrom(p, fs, i + 1)
+Expect(p, fs) == ExpectFrom(p, fs, 1)
 Container(size, g) == {i \in 1..N : (i - 1) \div size = g}
 NContainers(size) == (N + size - 1) \div size
 Need(p, rows, size) == {g \in 0..(NContainers(size) - 1) : Container(size, g) \cap Match(p, rows) # {}}
 \* pages restart in every row group
 PageOf(l, i) == <<(i - 1) \div l.rg, ((i - 1) % l.rg) \div l.pg>>
 NeedPages(p, rows, l) == {PageOf(l, i) : i \in Match(p, rows)}
+NeedFiles(p, fs) == {f \in 1..Len(fs) : Match(p, fs[f]) # {}}
 Sound(sel, p, rows) == Match(p, rows) \subseteq sel
 Laws(p, rows, l) ==
   LET m == Match(p, rows)
@@ -78,16 +101,21 @@ Laws(p, rows, l) ==
   IN /\ Sound(rgsel, p, rows) /\ Sound(pgsel, p, rows) /\ pgsel \subseteq rgsel
      /\ {i \in pgsel : Holds(Eval(p, rows[i]))} = m
      /\ \A g \in Need(p, rows, l.rg) : ~Sound(rgsel \ Container(l.rg, g), p, rows)
+AllLaws(p, fs, l) == \A f \in 1..Len(fs) : Laws(p, fs[f], l)
 
-Init == /\ \E k \in 1..NData : data = RandomData(k)
-        /\ pred \in RandomSubset(NPred, Preds)
-        /\ lay = RandomElement(Layouts)
+Init == /\ \E k \in 1..NCases : /\ data = <<RandomData(k), RandomData(k + 1000)>>
+                                /\ pred = RandomPred(k)
+                                /\ lay = RandomElement(Layouts)
 Next == UNCHANGED <<data, pred, lay>>
 Spec == Init /\ [][Next]_<<data, pred, lay>>
 
-Case == [rows |-> Rows(data), arrange |-> data.arrange, lay |-> lay, filter |-> pred,
-         expect |-> Expect(pred, Rows(data)),
-         need_rg |-> Cardinality(Need(pred, Rows(data), lay.rg)), n_rg |-> NContainers(lay.rg),
-         need_pages |-> Cardinality(NeedPages(pred, Rows(data), lay))]
-Emit == Laws(pred, Rows(data), lay) /\ PrintT(<<"CASE", ToJson(Case)>>)
+SumSeq(f, n) == IF n = 1 THEN f[1] ELSE f[1] + f[2]
+Case == LET fs == Files(data, lay) IN
+        [files |-> fs, arrange |-> <<data[1].arrange, data[2].arrange>>, lay |-> lay, filter |-> pred,
+         expect |-> Expect(pred, fs),
+         need_files |-> Cardinality(NeedFiles(pred, fs)), n_files |-> Len(fs),
+         need_rg |-> SumSeq([f \in 1..Len(fs) |-> Cardinality(Need(pred, fs[f], lay.rg))], Len(fs)),
+         n_rg |-> NContainers(lay.rg) * Len(fs),
+         need_pages |-> SumSeq([f \in 1..Len(fs) |-> Cardinality(NeedPages(pred, fs[f], lay))], Len(fs))]
+Emit == AllLaws(pred, Files(data, lay), lay) /\ PrintT(<<"CASE", ToJson(Case)>>)
 =============================================================================
